@@ -82,9 +82,9 @@ def gen(rng, tier):
     nrand = 40 if tier == "quick" else 2500
     gid = 0
     for ty in ("f64", "f32"):
-        for nx in (2, 3, 4):
-            for ny in (2, 3):
-                for i in range(nrand):
+        for nx, ny in [(2, 2), (2, 3), (3, 2), (3, 3), (4, 2), (4, 3), (5, 2), (2, 5)]:
+            if True:
+                for i in range(nrand if nx + ny <= 7 and max(nx, ny) <= 4 else max(6, nrand // 4)):
                     mode = "float" if i % 4 == 3 else "grid"
                     den = rng.choice([8, 16, 64])
                     cs = table(rng, ty, nx, ny, mode)
